@@ -683,3 +683,30 @@ def adjoint_broadcast_feature(t, plus):
         if v not in _free(body) or plus_operands_lacking(body, v):
             return True
     return any(adjoint_broadcast_feature(k, plus) for k in kids)
+
+
+# ---------------------------------------------------------------------------
+# C12: Gaussian pointwise algebra
+
+def c12(rec):
+    """C12: every pointwise operation on Gaussian funsors evaluates, at every sample point
+    of the remaining inputs, to the explicit quadratic log-density TLC computed.  Real
+    numbers are substituted both as python floats and as 0-d Tensors."""
+    exp = rec["exp"]
+    out = []
+    want = {n for n, _ in exp["ins"]}
+    for as_tensor in (False, True):
+        b = fbuild.Builder()
+        b.real_num_as_tensor = as_tensor
+        what = "tensor_arg" if as_tensor else "eager"
+        try:
+            r = b.build(rec["t"])
+        except Exception as e:  # noqa
+            out.append(_verdict("C12", "declined_error", what + ":" + type(e).__name__, str(e)[:100]))
+            continue
+        extra = [n for n in r.inputs if n not in want]
+        if extra:
+            out.append(_verdict("C12", "mismatch", what + "_extra_input", extra))
+            continue
+        out.append(_eval_check(r, exp, "C12", what, need_output=True))
+    return out
